@@ -193,18 +193,18 @@ func callMayModify(c ssa.CallInstruction, fname string) bool {
 
 // ---------- epochs
 type funcInfo struct {
-	fn     *ssa.Function
-	epoch  map[ssa.Instruction]map[string]string // at load instruction: field -> epoch id
-	rel    map[string]Lin                        // epoch id -> length linear form (if known)
-	relCtx map[string]ssa.Instruction
-	fields map[string]bool
-	cells  map[string]ssa.Value
-	terms  map[ssa.Value]Lin
-	busy   map[ssa.Value]bool
-	intFields map[string]bool
-	neq       []Lin
-	substs    []substEntry
-	inOverflowProof bool
+	fn                *ssa.Function
+	epoch             map[ssa.Instruction]map[string]string // at load instruction: field -> epoch id
+	rel               map[string]Lin                        // epoch id -> length linear form (if known)
+	relCtx            map[string]ssa.Instruction
+	fields            map[string]bool
+	cells             map[string]ssa.Value
+	terms             map[ssa.Value]Lin
+	busy              map[ssa.Value]bool
+	intFields         map[string]bool
+	neq               []Lin
+	substs            []substEntry
+	inOverflowProof   bool
 	outEpoch, inEpoch map[*ssa.BasicBlock]map[string]string
 }
 
@@ -332,7 +332,6 @@ func closureStoresFV(fn *ssa.Function, fv *ssa.FreeVar, depth int) bool {
 	}
 	return false
 }
-
 
 func analyzeEpochs(fi *funcInfo) {
 	fn := fi.fn
@@ -700,8 +699,8 @@ var splitLens = map[string]bool{}
 
 // phiInfo describes a monotone induction phi: p = phi(init..., p+step...)
 type phiInfo struct {
-	inits []ssa.Value
-	steps []int64
+	inits    []ssa.Value
+	steps    []int64
 	stepVals []ssa.Value
 }
 
@@ -898,7 +897,7 @@ func (fi *funcInfo) rangeFactsSeen(seen map[string]bool, ls ...Lin) []Lin {
 				if splitLens[a] {
 					out = append(out, atom(a).addK(-1))
 				}
-				out = append(out, atom(a))                                             // >= 0
+				out = append(out, atom(a))                                                    // >= 0
 				out = append(out, konstBig(new(big.Int).Lsh(big.NewInt(1), 56)).sub(atom(a))) // <= 2^56
 				continue
 			}
@@ -1038,7 +1037,6 @@ func splitNEQ(facts []Lin) (geq, neq []Lin) {
 	}
 	return
 }
-
 
 var paramNonNegCache = map[*ssa.Parameter]int{}
 
